@@ -66,7 +66,8 @@ theorem makroDigits_spec (l : List Byte) (v n : Nat) :
     unfold makroDigits
     split
     · rename_i hd
-      obtain ⟨h1, h2, h3⟩ := ih (if v < Gen.spfMakroNumCap then v * 10 + (c.toNat - 48) else v) (n + 1)
+      generalize (if v < Gen.spfMakroNumCap then v * 10 + (c.toNat - 48) else v) = v'
+      obtain ⟨h1, h2, h3⟩ := ih v' (n + 1)
       refine ⟨by simp; omega, by omega, ?_⟩
       intro i hi
       cases i with
